@@ -13,6 +13,7 @@
 import json, os, re
 from vlib import Infra
 import tracecheck
+import corpus
 
 
 def tests_from(ctx, r, path):
@@ -108,6 +109,10 @@ def run(ctx):
             tracecheck.selftest_reject(ctx, "TraceEndPoint", "TraceEndPoint_stress.cfg", sp, drop_qclose, "dropped-qclose")
             tracecheck.selftest_reject(ctx, "TraceEndPoint", "TraceEndPoint_stress.cfg", sp, dup_closer, "duplicated-closer")
             ctx.extra["binding_selftests"] = ["dropped-qclose rejected", "duplicated-closer rejected"]
+
+    # (c') the repository's own tests, run with the hooks on, as a trace corpus (DESIGN 4.6)
+    if not ctx.violations:
+        corpus.validate_endpoints(ctx, ["./bus/...", "./examples/..."], runs=3 if thorough else 1)
 
     ctx.traces += replayed + traces
     ctx.extra.update({"behaviours_replayed": replayed, "traces_validated_by_tlc": traces, "stress_rounds": rounds,
